@@ -437,13 +437,17 @@ func c13InPlaceAndNested(r *Run, n, hist int) {
 			for i := range ps {
 				l = append(l, map[string]interface{}{"P": ps[i], "Q": qs[i]})
 			}
-			return map[string]interface{}{"a": map[string]interface{}{"b": map[string]interface{}{"c": l, "d": map[string]interface{}{"e": l}}, "l": l}, "l": l,
+			mm := map[string]interface{}{}
+			for i := range ps {
+				mm[fmt.Sprintf("k%d", i)] = map[string]interface{}{"P": ps[i], "Q": qs[i]}
+			}
+			return map[string]interface{}{"a": map[string]interface{}{"b": map[string]interface{}{"c": l, "d": map[string]interface{}{"e": l}, "m": mm}, "l": l}, "l": l,
 				"m": map[string]interface{}{"k1": map[string]interface{}{"P": ps[0], "Q": qs[0]}, "k2": map[string]interface{}{"P": ps[1], "Q": qs[1]}}}
 		}
 	}
 	pats3 := [][2][]int{{{1, 0, 0}, {0, 1, 0}}, {{1, 0, 0}, {1, 0, 0}}, {{0, 0, 0}, {0, 0, 0}}, {{0, 0, 1}, {1, 0, 1}}, {{0, 1, 0}, {0, 1, 1}}}
 	nested := []string{"any a.b.c as x { x.P == 1 and x.Q == 1 }", `any "/a/b/c" as x { x.P == 1 and x.Q == 1 }`, "any a.b.c as _, x { x.P == 1 and x.Q == 1 }", "any a.b.c as i, x { x.P == 1 and x.Q == 1 }", "all a.b.c as x { x.P != 1 or x.Q != 1 }",
-		"any l as x { x.P == 1 and x.Q == 1 }", "any a.l as x { x.P == 1 and x.Q == 1 }", "any a.b.d.e as x { x.P == 1 and x.Q == 1 }", "any m as k, v { v.P == 1 and v.Q == 1 }", "any a.b.c as x { any a.b.c as y { x.P == 1 and y.Q == 1 and x.Q == 1 } }",
+		"any l as x { x.P == 1 and x.Q == 1 }", "any a.l as x { x.P == 1 and x.Q == 1 }", "any a.b.m as _, v { v.P == 1 and v.Q == 1 }", "any a.b.m as k, v { v.P == 1 and v.Q == 1 and k != zz }", `all "/a/b/m" as _, v { v.P != 1 or v.Q != 1 }`, "any a.b.d.e as x { x.P == 1 and x.Q == 1 }", "any m as k, v { v.P == 1 and v.Q == 1 }", "any a.b.c as x { any a.b.c as y { x.P == 1 and y.Q == 1 and x.Q == 1 } }",
 		"a.b.c.0.P == 1 and a.b.c.0.Q == 1", "any a.b.c as x { x.P == 1 } and any a.b.c as x { x.Q == 2 }"}
 	// collections below 1..17 path segments (the capacity a slice of parts grows to depends on how it was built)
 	deepDoc := func(n int, ps, qs []int) (interface{}, string) {
